@@ -113,7 +113,8 @@ theorem anchor_mem_footprint (l : LL K V) (cells : Cells K V) : l.anchor ∈ foo
 /-! one lemma per helper: it writes only its own links (or new ones) -/
 
 theorem Rep.touches_moveToFront {l l' : LL K V} {cells : Cells K V} (h : Rep l cells) {k : K} {n : Nat}
-    (hm : l.moveToFront k = some (l', n)) : Touches l l' (footprint l cells) ∧ n ∈ footprint l cells := by
+    (hm : l.moveToFront k = some (l', n)) :
+    Touches l l' (footprint l cells) ∧ n ∈ footprint l cells ∧ l'.anchor = l.anchor ∧ l'.table = l.table := by
   unfold LL.moveToFront at hm
   split at hm
   · cases hm
@@ -125,7 +126,7 @@ theorem Rep.touches_moveToFront {l l' : LL K V} {cells : Cells K V} (h : Rep l c
     have cp := h.closed_prev
     have cn1 := cn.upd (rd l.prev n') (cn n' hn)
     have cp1 := cp.upd (rd (upd l.next (rd l.prev n') (rd l.next n')) n') (cp n' hn)
-    refine ⟨⟨Nat.le_refl _, ?_, ?_, Same.refl _ _ _, Same.refl _ _ _⟩, hn⟩
+    refine ⟨⟨Nat.le_refl _, ?_, ?_, Same.refl _ _ _, Same.refl _ _ _⟩, hn, rfl, rfl⟩
     · exact (((Same.refl _ _ _).upd (Or.inl (cn1 n' hn)) _).upd (Or.inl (anchor_mem_footprint l cells)) _).upd (Or.inl hn) _
     · exact (((Same.refl _ _ _).upd (Or.inl (cp n' hn)) _).upd (Or.inl (cp1 _ (anchor_mem_footprint l cells))) _).upd (Or.inl hn) _
 
@@ -146,7 +147,8 @@ theorem Rep.touches_evictLast {l : LL K V} {cells : Cells K V} (h : Rep l cells)
   · exact ((Same.refl _ _ _).upd (Or.inl (anchor_mem_footprint l cells)) _).upd (Or.inl (cn _ (anchor_mem_footprint l cells))) _
 
 theorem Rep.touches_remove {l l' : LL K V} {cells : Cells K V} (h : Rep l cells) {k : K}
-    (hm : l.remove k = some l') : Touches l l' (footprint l cells) := by
+    (hm : l.remove k = some l') :
+    Touches l l' (footprint l cells) ∧ l'.anchor = l.anchor ∧ l'.table = eraseKey k l.table := by
   unfold LL.remove at hm
   split at hm
   · cases hm
@@ -157,7 +159,7 @@ theorem Rep.touches_remove {l l' : LL K V} {cells : Cells K V} (h : Rep l cells)
     have cn := h.closed_next
     have cp := h.closed_prev
     have cn1 := cn.upd (rd l.prev n) (cn n hn)
-    refine ⟨Nat.le_refl _, ?_, ?_, Same.refl _ _ _, Same.refl _ _ _⟩
+    refine ⟨⟨Nat.le_refl _, ?_, ?_, Same.refl _ _ _, Same.refl _ _ _⟩, rfl, rfl⟩
     · exact (Same.refl _ _ _).upd (Or.inl (cn1 n hn)) _
     · exact (Same.refl _ _ _).upd (Or.inl (cp n hn)) _
 
@@ -217,5 +219,79 @@ theorem Touches.trans {l l' l'' : LL K V} {F F' : List Nat} (h1 : Touches l l' F
     fun b hb hlt => (h2.next b (key b hb hlt).1 (key b hb hlt).2).trans (h1.next b hb hlt),
     fun b hb hlt => (h2.key b (key b hb hlt).1 (key b hb hlt).2).trans (h1.key b hb hlt),
     fun b hb hlt => (h2.val b (key b hb hlt).1 (key b hb hlt).2).trans (h1.val b hb hlt)⟩
+
+/-! tracking a list through a sequence of steps: relative to its state `base` (own links `F0`) at some earlier
+    time it has written only links it owned then or allocated since, and it uses only such links -/
+
+/-- a link the list may use: one of its links at the time of `base`, or allocated since -/
+def Owned (base : LL K V) (F0 : List Nat) (a : Nat) : Prop := a ∈ F0 ∨ base.fresh ≤ a
+
+structure Track (base : LL K V) (F0 : List Nat) (l : LL K V) : Prop where
+  touches : Touches base l F0
+  anchor : Owned base F0 l.anchor
+  table : ∀ k n, lookup k l.table = some n → Owned base F0 n
+
+theorem Track.owns {base l : LL K V} {F0 : List Nat} {cells : Cells K V} (t : Track base F0 l) (h : Rep l cells) :
+    ∀ a ∈ footprint l cells, a ∈ F0 ∨ base.fresh ≤ a := by
+  intro a ha
+  simp only [C02.footprint, List.mem_cons] at ha
+  rcases ha with rfl | ha
+  · exact t.anchor
+  · obtain ⟨c, hc, rfl⟩ := List.mem_map.1 ha
+    have hl := lookup_of_mem h.nk hc
+    have ht : lookup c.1 l.table = some c.2.1 := by rw [h.tbl, hl]; rfl
+    exact t.table _ _ ht
+
+theorem Track.start {l : LL K V} {cells : Cells K V} (h : Rep l cells) : Track l (footprint l cells) l :=
+  ⟨Touches.refl _ _, Or.inl (anchor_mem_footprint l cells), fun _ _ ht => Or.inl (h.addr_of_table ht)⟩
+
+theorem Track.step {base l l' : LL K V} {F0 : List Nat} {cells : Cells K V} (t : Track base F0 l) (h : Rep l cells)
+    (ht : Touches l l' (footprint l cells)) (ha : Owned base F0 l'.anchor)
+    (htb : ∀ k n, lookup k l'.table = some n → Owned base F0 n) : Track base F0 l' :=
+  ⟨t.touches.trans ht (t.owns h), ha, htb⟩
+
+theorem Track.moveToFront {base l l' : LL K V} {F0 : List Nat} {cells : Cells K V} (t : Track base F0 l)
+    (h : Rep l cells) {k : K} {n : Nat} (hm : l.moveToFront k = some (l', n)) (x : Option V) :
+    Track base F0 l' ∧ Track base F0 { l' with val := upd l'.val n x } := by
+  obtain ⟨ht, hn, ha, htb⟩ := h.touches_moveToFront hm
+  have t1 : Track base F0 l' := t.step h ht (ha ▸ t.anchor) (by rw [htb]; exact t.table)
+  refine ⟨t1, t.step h (ht.trans (Rep.touches_setVal l' hn x) (fun a ha => Or.inl ha)) t1.anchor t1.table⟩
+
+theorem Track.addFront {base l : LL K V} {F0 : List Nat} {cells : Cells K V} (t : Track base F0 l)
+    (h : Rep l cells) (k : K) (v : V) : Track base F0 (l.addFront k v) := by
+  refine t.step h (h.touches_addFront k v) t.anchor (fun k' n hl => ?_)
+  have hl' : lookup k' (dset k l.fresh l.table) = some n := hl
+  by_cases e : k' = k
+  · subst e; rw [lookup_dset_self] at hl'; cases hl'; exact Or.inr t.touches.fresh
+  · rw [lookup_dset_ne e] at hl'; exact t.table _ _ hl'
+
+theorem lookup_eraseKey_some {A : Type} {k k' : K} {x : A} {l : List (K × A)} (hn : (keys l).Nodup)
+    (h : lookup k' (eraseKey k l) = some x) : lookup k' l = some x := by
+  by_cases e : k' = k
+  · subst e; rw [lookup_eraseKey_self _ _ hn] at h; cases h
+  · rwa [lookup_eraseKey_ne e] at h
+
+theorem Track.evictLast {base l : LL K V} {F0 : List Nat} {cells : Cells K V} (t : Track base F0 l)
+    (h : Rep l cells) (k : K) (v : V) : Track base F0 (l.evictLast k v).1 := by
+  refine t.step h (h.touches_evictLast k v) ?_ (fun k' n hl => ?_)
+  · exact t.owns h _ (h.closed_next _ (anchor_mem_footprint l cells))
+  · have hl' : lookup k' (dset k l.anchor (match rd (upd l.key l.anchor (some k)) (rd l.next l.anchor) with
+        | some e => eraseKey e l.table
+        | none => l.table)) = some n := hl
+    by_cases e : k' = k
+    · subst e; rw [lookup_dset_self] at hl'; cases hl'; exact t.anchor
+    · rw [lookup_dset_ne e] at hl'
+      split at hl'
+      · exact t.table _ _ (lookup_eraseKey_some h.tn hl')
+      · exact t.table _ _ hl'
+
+theorem Track.remove {base l l' : LL K V} {F0 : List Nat} {cells : Cells K V} (t : Track base F0 l)
+    (h : Rep l cells) {k : K} (hm : l.remove k = some l') : Track base F0 l' := by
+  obtain ⟨ht, ha, htb⟩ := h.touches_remove hm
+  exact t.step h ht (ha ▸ t.anchor) (fun k' n hl => t.table _ _ (lookup_eraseKey_some h.tn (htb ▸ hl)))
+
+theorem Track.reinit {base l : LL K V} {F0 : List Nat} {cells : Cells K V} (t : Track base F0 l)
+    (h : Rep l cells) : Track base F0 l.reinit :=
+  t.step h (Rep.touches_reinit l _) (Or.inr t.touches.fresh) (fun _ _ hl => by simp [LL.reinit, lookup] at hl)
 
 end C02
